@@ -236,6 +236,13 @@ Definition pred_directive (k : pkind) (n : node) (v : N) (more_than less_than : 
   let '(m, l) := if pd_straight k then (more_than, less_than) else (less_than, more_than) in
   let '(m, l) := if pd_inner_straight then (m, l) else (l, m) in
   predlist_add n v m l s.
+(* the name of the predicate list a directive works on (get_predlist(type)) *)
+Definition pkind_text (k : pkind) : text :=
+  match k with
+  | PView => [118; 105; 101; 119]%N
+  | PRoute => [114; 111; 117; 116; 101]%N
+  | PSubscriber => [115; 117; 98; 115; 99; 114; 105; 98; 101; 114]%N
+  end.
 Definition preds_scenario (k : pkind) (adds : list (node * N * hint * hint)) : sorter :=
   fold_left (fun s x => let '(n, f, m, l) := x in pred_directive k n f m l s) adds
             (fold_left (fun s n => pred_directive k n 0%N HNone HNone s) (pd_defaults k) (new_sorter cfg_plain)).
